@@ -34,9 +34,14 @@ def post_case(draw, heavy=False):
   case = {"posters": posters, "body": body, "prefill": prefill, "handler": handler,
           "schedule": [list(x) for x in draw(schedule_st)], "heavy": 0,
           # events that arrive through the fabric and from a timed source
-          "subscribe": draw(st.sampled_from(["none", "none", "fifo", "lifo", "both"])),
-          "publishes": draw(st.integers(0, 3)),
-          "timer": draw(st.sampled_from([None, None, ["fifo", 2], ["lifo", 1], ["fifo", 3]]))}
+          "subscribe": "none", "publishes": 0, "timer": None}
+  if draw(st.integers(0, 2)) == 0:
+    case["subscribe"] = draw(st.sampled_from(["fifo", "lifo", "both"]))
+    case["publishes"] = draw(st.integers(1, 3))
+  if draw(st.integers(0, 3)) == 0:
+    case["timer"] = draw(st.sampled_from([["fifo", 2], ["lifo", 1], ["fifo", 3]]))
+  if True:
+    pass
   if heavy:
     case["heavy"] = draw(st.sampled_from([0, 0, 1, 497, 498, 499, 500]))
   return case
@@ -173,6 +178,27 @@ class C04(Prop):
 
   def strategy(self, tier):
     return post_case()
+
+  def extra(self, tier, seed, shard, nshards, stats):
+    """A regular family of schedules for the narrowest race of this property, a wake-up token
+    taken between a post's token put and its deque store: ONE post (fifo or lifo) to an idle
+    object under every periodic schedule (thread i mod k runs q lines), q in 1..60, k in 2..3."""
+    idx = 0
+    for kind in ("lifo", "fifo"):
+      for k in (2, 3):
+        for q in range(1, 61):
+          idx += 1
+          if idx % nshards != shard:
+            continue
+          case = {"posters": [[kind]], "body": [], "prefill": [], "handler": {}, "heavy": 0,
+                  "subscribe": "none", "publishes": 0, "timer": None,
+                  "schedule": [[i % k, q] for i in range(90)]}
+          try:
+            self.check(case, stats)
+          except PropertyViolation as v:
+            yield case, v
+            return
+    stats.classes["periodic_schedule_family"] = idx
 
   def check(self, case, stats):
     out = run_post_case(case)
